@@ -43,8 +43,8 @@ impl Oracle {
         match b {
             Add => x + y, Sub => x - y, Mul => x * y, Div => x / y,
             Atan => self.log2(8, x, y, x.atan2(y)),
-            Min => if x < y { x } else if y < x { y } else if x.is_nan() || y.is_nan() { f32::NAN } else { y },
-            Max => if x > y { x } else if y > x { y } else if x.is_nan() || y.is_nan() { f32::NAN } else { y },
+            Min => if x < y { x } else if y < x { y } else if x.is_nan() || y.is_nan() { f32::NAN } else if x.is_sign_negative() { x } else { y },
+            Max => if x > y { x } else if y > x { y } else if x.is_nan() || y.is_nan() { f32::NAN } else if x.is_sign_positive() { x } else { y },
             Compare => match x.partial_cmp(&y) { Some(c) => c as i8 as f32, None => f32::NAN },
             Mod => self.log2(9, x, y, x.rem_euclid(y)),
             And => if x == 0.0 { x } else { y },
